@@ -38,8 +38,12 @@ def write(mod, total, args, wall, reported, known_lines, inconclusive):
         coverage=cov, assumptions=list(getattr(mod, "ASSUMPTIONS", [])),
         wall_s=round(wall, 2), violations=len({p for p, _ in reported}),
     )
-    os.makedirs(os.path.join(HERE, "evidence"), exist_ok=True)
-    path = os.path.join(HERE, "evidence", f"{mod.ID}.json")
+    # evidence/<id>.json describes /repo itself; a run against another tree (VERIF_REPO=<scratch copy>: seeded changes, controls,
+    # self-test mutants) writes next to the replay files instead, so that it can never overwrite or be taken for the evidence
+    repo = os.path.realpath(os.environ.get("VERIF_REPO", "/repo"))
+    sub = "evidence" if repo == "/repo" else os.path.join("evidence", "replay", "other-tree")
+    os.makedirs(os.path.join(HERE, sub), exist_ok=True)
+    path = os.path.join(HERE, sub, f"{mod.ID}.json")
     with open(path, "w") as f:
         json.dump(ev, f, indent=1, ensure_ascii=True, default=repr)
     try:
